@@ -84,7 +84,9 @@ package core
 //@   ensures  durable: result == nil ==> world.hasRec[f.ContentId] && world.recTx[f.ContentId] == f.TxId && world.recKey[f.ContentId] == f.Key &&
 //@                        world.recSeq[f.ContentId] == u.txStore.store[f.TxId].store[f.Key].l.elems[len(u.txStore.store[f.TxId].store[f.Key].l.elems)-1].v.Seq
 //@   ensures  failed:  result != nil ==> (forall l *core.List[model.File] :: l.elems == old(l.elems)) &&
-//@                        (forall c string :: world.hasRec[c] == old(world.hasRec[c]) && world.recSeq[c] == old(world.recSeq[c]) && world.recTx[c] == old(world.recTx[c]))
+//@                        (forall c string :: world.hasRec[c] == old(world.hasRec[c]) && world.recSeq[c] == old(world.recSeq[c]) && world.recTx[c] == old(world.recTx[c]) && world.recKey[c] == old(world.recKey[c]))
+//@   ensures  others:  forall c string :: c != f.ContentId ==> world.hasRec[c] == old(world.hasRec[c]) && world.recSeq[c] == old(world.recSeq[c]) &&
+//@                        world.recTx[c] == old(world.recTx[c]) && world.recKey[c] == old(world.recKey[c])
 
 // ---- reads ----
 // isLatest: r is the newest version of key in tx (zero value if there is none).
